@@ -35,9 +35,9 @@ where B: BlockProvider + Send + Sync + 'static, N: NotificationService + Send + 
 
 pub fn policy_of(v: &serde_json::Value) -> TrampolineRoutingPolicy {
     TrampolineRoutingPolicy {
-        fee_base_msat: v[0].as_u64().unwrap() as u32,
-        fee_proportional_millionths: v[1].as_u64().unwrap() as u32,
-        cltv_expiry_delta: v[2].as_u64().unwrap() as u16,
+        fee_base_msat: v[0].as_u64().unwrap() as _,
+        fee_proportional_millionths: v[1].as_u64().unwrap() as _,
+        cltv_expiry_delta: v[2].as_u64().unwrap() as _,
     }
 }
 
